@@ -54,7 +54,10 @@ def bootstrap():
     if os.environ.get("PYTHONHASHSEED") != want:
         env = dict(os.environ)
         env["PYTHONHASHSEED"] = want
-        os.execve(sys.executable, [sys.executable] + sys.argv, env)
+        # keep the interpreter's own options (-O ...): sys.argv does not hold them
+        argv = list(getattr(sys, "orig_argv", None) or [sys.executable] + sys.argv)
+        argv[0] = sys.executable
+        os.execve(sys.executable, argv, env)
     src = func_adl_src()
     if sys.path[0] != src:
         sys.path.insert(0, src)
